@@ -43,7 +43,7 @@ func newTranspLogger(path string) *transpLogger {
 // maybe records the compilation with probability ~1/64 (keyed by content, so it is a
 // deterministic function of the case), at most 400 per worker.
 func (t *transpLogger) maybe(src string, o *comp.Options, res *comp.Result) {
-	if t == nil || t.n >= 400 || res.Budget != "" {
+	if t == nil || t.n >= 400 || res.Budget != "" || res.DiskReads > 0 {
 		return
 	}
 	if rng.HashStr(src)%64 != 0 {
